@@ -223,6 +223,8 @@ func c20One(r *fw.Run, c *c20Case, idx int) {
 	var lns []net.Listener
 	names := make([]string, 3)
 	kinds := make([]string, 3)
+	nets := []string{"unix", "unix", "unix"}
+	isSock := func(k string) bool { return k == "socket" || k == "tcpsocket" }
 	cleanup := func() {
 		for _, f := range files {
 			f.Close()
@@ -253,6 +255,20 @@ func c20One(r *fw.Run, c *c20Case, idx int) {
 				return
 			}
 			files = append(files, f)
+		case "tcpsocket":
+			l, err := net.Listen("tcp", "127.0.0.1:0")
+			if err != nil {
+				r.Inconclusive("candidate tcp socket: %v", err)
+				return
+			}
+			names[i], nets[i] = l.Addr().String(), "tcp"
+			lns = append(lns, l)
+			f, err := l.(*net.TCPListener).File()
+			if err != nil {
+				r.Inconclusive("candidate tcp socket file: %v", err)
+				return
+			}
+			files = append(files, f)
 		case "file":
 			f, err := os.Create(filepath.Join(r.WorkDir, fmt.Sprintf("%s-%d.txt", tag, i)))
 			if err != nil {
@@ -273,7 +289,7 @@ func c20One(r *fw.Run, c *c20Case, idx int) {
 	// when a descriptor will be selected, the address argument names an existing filesystem entry (as it does under
 	// systemd, where it is the path of the activated socket): activation must leave it alone
 	fsFallback := ""
-	if sel >= 0 && kinds[sel] == "socket" {
+	if sel >= 0 && isSock(kinds[sel]) {
 		fsFallback = filepath.Join(r.WorkDir, tag+"-fb")
 		if idx%2 == 0 {
 			os.WriteFile(fsFallback, []byte("not a socket"), 0600)
@@ -338,17 +354,17 @@ func c20One(r *fw.Run, c *c20Case, idx int) {
 		report("listen-failed", "Service.Listen in the helper did not serve: %q %s", line, clip(stderr.String(), 500))
 		return
 	}
-	if sel >= 0 && kinds[sel] != "socket" {
+	if sel >= 0 && !isSock(kinds[sel]) {
 		sel = -1 // a selected descriptor that is not a socket: fall back to the address
 	}
 	// the expected endpoint answers with the helper's identity
-	expAddr := fallback
+	expAddr, expNet := fallback, "unix"
 	expWhat := "the fallback address"
 	if sel >= 0 {
-		expAddr = names[sel]
-		expWhat = fmt.Sprintf("inherited descriptor %d", 3+sel)
+		expAddr, expNet = names[sel], nets[sel]
+		expWhat = fmt.Sprintf("inherited descriptor %d (%s)", 3+sel, kinds[sel])
 	}
-	ok, wrong := c20Probe("unix", expAddr, product, 10*time.Second)
+	ok, wrong := c20Probe(expNet, expAddr, product, 10*time.Second)
 	if !ok {
 		report("expected-endpoint-not-served", "%s must be served (model), but no GetInfo reply arrived within 10 s; helper reported %q", expWhat, line)
 	} else if wrong != "" {
@@ -362,16 +378,19 @@ func c20One(r *fw.Run, c *c20Case, idx int) {
 	}
 	// no other candidate is served
 	others := []string{}
+	onets := []string{}
 	for i := 0; i < 3; i++ {
-		if i != sel && kinds[i] == "socket" {
+		if i != sel && isSock(kinds[i]) {
 			others = append(others, names[i])
+			onets = append(onets, nets[i])
 		}
 	}
 	if sel >= 0 {
 		others = append(others, fallback)
+		onets = append(onets, "unix")
 	}
-	for _, a := range others {
-		if ans, _ := c20Probe("unix", a, product, 15*time.Millisecond); ans {
+	for oi, a := range others {
+		if ans, _ := c20Probe(onets[oi], a, product, 15*time.Millisecond); ans {
 			report("unexpected-endpoint-served", "%s answers although the model selects %s", a, expWhat)
 		}
 	}
@@ -407,6 +426,13 @@ func runC20(r *fw.Run) {
 			cases = append(cases, &c20Case{PidMode: "own", FDS: sp(fds), FDNames: sp(nm), NamesVar: "extra", Kind: "socket", OtherK: ok})
 		}
 	}
+	// inherited listening sockets of the other stream family (TCP), selected and not selected
+	for _, fds := range []string{"1", "2", "3"} {
+		cases = append(cases, &c20Case{PidMode: "own", FDS: sp(fds), FDNames: sp([]string{"varlink", "x:varlink", "x:varlink:y"}[int(fds[0]-'1')]), NamesVar: "extra", Kind: "tcpsocket", OtherK: "socket"},
+			&c20Case{PidMode: "own", FDS: sp(fds), FDNames: sp([]string{"varlink", "x:varlink", "x:varlink:y"}[int(fds[0]-'1')]), NamesVar: "extra", Kind: "socket", OtherK: "tcpsocket"},
+			&c20Case{PidMode: "other", FDS: sp(fds), FDNames: sp([]string{"varlink", "x:varlink", "x:varlink:y"}[int(fds[0]-'1')]), NamesVar: "extra", Kind: "tcpsocket", OtherK: "tcpsocket"})
+	}
+	cases = append(cases, &c20Case{PidMode: "own", FDS: sp("1"), NamesVar: "extra", Kind: "tcpsocket", OtherK: "file"})
 	cases = append(cases, &c20Case{PidMode: "own-padded", FDS: sp("1"), NamesVar: "extra", Kind: "socket", OtherK: "socket"},
 		&c20Case{PidMode: "own-suffix", FDS: sp("1"), NamesVar: "extra", Kind: "socket", OtherK: "socket"})
 	for _, fds := range []string{"1x", "1.5", "1,3", "2-1", "3;", "0x1", "1e0", "١"} {
@@ -446,7 +472,7 @@ func replayC20(r *fw.Run, raw json.RawMessage) {
 func init() {
 	fw.Register(&fw.Engine{
 		ID: "C20", Level: "exploration",
-		Rule: "the full product LISTEN_PID in {own pid, other pid, unset, garbage} x LISTEN_FDS in {unset, '', 'foo', '-1', '0', '1', '2', '3'} x LISTEN_FDNAMES in {unset, one entry too many, one too few, varlink first / middle / last / twice / absent with the right arity} x kind of the descriptor that would be selected in {listening unix socket, regular file, pipe} = 768 configurations, enumerated completely (thorough: three times, with the non-selected descriptors being sockets, files, pipes), plus a few spellings outside the product ('+1', '01', ' 1', case and blank variants of 'varlink', an empty name). For each configuration a helper process inherits three distinguishable candidates as descriptors 3,4,5, sets LISTEN_PID as the case says and calls Service.Listen(fallback address). Oracle (model A.6 written from the statement): exactly one endpoint - the selected inherited socket, or the fallback address in every other environment incl. a selected descriptor that is not a socket - answers GetInfo with the helper's unique product string; no other candidate answers; the helper never panics. non-trivial = pid matches or LISTEN_FDS is set; distinct by hash of the configuration. Further spellings outside the product: numeric prefixes (1x, 1.5, 3;), pid with suffix or padding, name prefixes and case variants; whenever a descriptor is selected the address argument names an existing file or socket that must be left alone.",
+		Rule: "the full product LISTEN_PID in {own pid, other pid, unset, garbage} x LISTEN_FDS in {unset, '', 'foo', '-1', '0', '1', '2', '3'} x LISTEN_FDNAMES in {unset, one entry too many, one too few, varlink first / middle / last / twice / absent with the right arity} x kind of the descriptor that would be selected in {listening unix socket, regular file, pipe} = 768 configurations, enumerated completely (thorough: three times, with the non-selected descriptors being sockets, files, pipes), plus a few spellings outside the product ('+1', '01', ' 1', case and blank variants of 'varlink', an empty name). For each configuration a helper process inherits three distinguishable candidates as descriptors 3,4,5, sets LISTEN_PID as the case says and calls Service.Listen(fallback address). Oracle (model A.6 written from the statement): exactly one endpoint - the selected inherited socket, or the fallback address in every other environment incl. a selected descriptor that is not a socket - answers GetInfo with the helper's unique product string; no other candidate answers; the helper never panics. non-trivial = pid matches or LISTEN_FDS is set; distinct by hash of the configuration. Further spellings outside the product: numeric prefixes (1x, 1.5, 3;), pid with suffix or padding, name prefixes and case variants; whenever a descriptor is selected the address argument names an existing file or socket that must be left alone. Extra cases outside the product: inherited listening TCP sockets (selected: must be served; not selected: must not be).",
 		Assumptions: []string{"'no other candidate answers' is checked with a 15 ms probe and is one-sided (an answer is a violation); the positive check has a 10 s bound", "descriptor numbers above 5 are not passed, so LISTEN_FDS > 3 is not generated"},
 		Run:         runC20, Replay: replayC20, CrashIsViolation: false, MinEvals: 100,
 		QuickTimeout: 15 * time.Minute, ThoroughTimeout: 60 * time.Minute,
